@@ -305,9 +305,9 @@ func copyLoop(c1 io.ReadWriteCloser, c2 io.ReadWriteCloser, shutdown chan struct
 // conn.RemoteAddr() inside this function, as a workaround for a hang that
 // otherwise occurs inside of conn.pc.RemoteDescription() (called by
 // RemoteAddr). https://bugs.torproject.org/18628#comment:8
-func (sf *SnowflakeProxy) datachannelHandler(conn *webRTCConn, remoteAddr net.Addr, relayURL string) {
+func (sf *SnowflakeProxy) datachannelHandler(conn *webRTCConn, remoteAddr net.Addr, relayURL string, release *sync.Once) {
 	defer conn.Close()
-	defer tokens.ret()
+	defer release.Do(tokens.ret)
 
 	if relayURL == "" {
 		relayURL = sf.RelayURL
@@ -342,10 +342,14 @@ func (sf *SnowflakeProxy) datachannelHandler(conn *webRTCConn, remoteAddr net.Ad
 type dataChannelHandlerWithRelayURL struct {
 	RelayURL string
 	sf       *SnowflakeProxy
+	// release returns the session's token exactly once: the data channel
+	// timeout in runSession and this handler may both reach their release
+	// when the client opens the channel just as the timeout fires.
+	release *sync.Once
 }
 
 func (d dataChannelHandlerWithRelayURL) datachannelHandler(conn *webRTCConn, remoteAddr net.Addr) {
-	d.sf.datachannelHandler(conn, remoteAddr, d.RelayURL)
+	d.sf.datachannelHandler(conn, remoteAddr, d.RelayURL, d.release)
 }
 
 // Create a PeerConnection from an SDP offer. Blocks until the gathering of ICE
@@ -518,7 +522,7 @@ func (sf *SnowflakeProxy) runSession(sid string) {
 		return
 	}
 	dataChan := make(chan struct{})
-	dataChannelAdaptor := dataChannelHandlerWithRelayURL{RelayURL: relayURL, sf: sf}
+	dataChannelAdaptor := dataChannelHandlerWithRelayURL{RelayURL: relayURL, sf: sf, release: new(sync.Once)}
 	pc, err := sf.makePeerConnectionFromOffer(offer, config, dataChan, dataChannelAdaptor.datachannelHandler)
 	if err != nil {
 		log.Printf("error making WebRTC connection: %s", err)
@@ -546,7 +550,7 @@ func (sf *SnowflakeProxy) runSession(sid string) {
 		if err := pc.Close(); err != nil {
 			log.Printf("error calling pc.Close: %v", err)
 		}
-		tokens.ret()
+		dataChannelAdaptor.release.Do(tokens.ret)
 	}
 }
 
